@@ -680,6 +680,8 @@ pub enum CustomTypeParseError {
     InvalidUtf8(Vec<u8>),
     #[error("Wrong number of parameters {actual}, expected: {expected}")]
     InvalidParameterCount { actual: usize, expected: usize },
+    #[error("Custom type is nested deeper than the supported {0} levels")]
+    TypeNestingTooDeep(usize),
 }
 
 /// An error type returned when deserialization of CQL type name fails.
@@ -706,4 +708,6 @@ pub enum CqlTypeParseError {
     TypeNotImplemented(u16),
     #[error("Failed to parse custom CQL type: {0}")]
     CustomTypeParseError(CustomTypeParseError),
+    #[error("CQL type is nested deeper than the supported {0} levels")]
+    TypeNestingTooDeep(usize),
 }
